@@ -111,8 +111,9 @@ def unit_stream(rng: random.Random, n: int) -> list[float]:
 
 
 def real_stream(rng: random.Random, n: int, nonneg: bool = False) -> list[float]:
-    kind = rng.choice(["gauss", "shift", "shift", "uniform", "integer", "tied", "scaled", "huge"])
+    kind = rng.choice(["gauss", "shift", "shift", "uniform", "integer", "tied", "scaled", "huge", "tiny"])
     big = rng.choice([1e7, 1e9, 1e12])
+    small = rng.choice([1e-9, 1e-13, 1e-16])
     mu0, mu1 = rng.choice([0.0, 1.0, 5.0]), rng.choice([0.5, 2.0, 4.0, 9.0])
     sd = rng.choice([0.1, 0.5, 1.0, 2.0])
     cut = rng.randint(1, max(1, n - 1))
@@ -128,6 +129,8 @@ def real_stream(rng: random.Random, n: int, nonneg: bool = False) -> list[float]
             v = float(rng.randint(0, 3) if t < cut else rng.randint(2, 6))
         elif kind == "tied":
             v = rng.choice([0.0, 0.5, 1.0, 1.0, 2.0])
+        elif kind == "tiny":       # quantities in SI units (seconds per operation, probabilities of rare events): everything far below 1e-9
+            v = rng.gauss(mu0 if t < cut else mu1, sd) * small
         elif kind == "huge":       # counters, byte counts, nanosecond timestamps: magnitudes far beyond 1e4
             v = rng.gauss(mu0 if t < cut else mu1, sd) * big
         else:
